@@ -222,6 +222,10 @@ for name, inst, tags, tier in [
 H("kani-arena", "claim::panic_claim_twice", ["C14"], kind="must_panic", expect_fail=[r"already_claimed"], stubbing=True, cbmc_args=FS, inst="second claim() on a claimed handle", unwind=6, timeout_s=900, mem_gb=4, note=AR_STUBS, bounds="1 chunk")
 H("kani-arena", "claim::panic_alloc_on_claimed", ["C14", "C07"], kind="must_panic", expect_fail=[r"error_behavior::panic::claimed"], stubbing=True, cbmc_args=FS, inst="panicking alloc / reserve on a claimed handle", unwind=6, timeout_s=900, mem_gb=4, note=AR_STUBS, bounds="1 chunk")
 
+H("kani-arena", "claim::panic_dyn_alloc_on_claimed", ["C14", "C07", "C17"], kind="must_panic", expect_fail=[r"error_behavior::panic::claimed"], stubbing=True, cbmc_args=FS, inst="panicking allocate_layout / allocate_sized / allocate_slice / reserve of `dyn BumpAllocatorCore` on a claimed handle: the claimed panic, never the allocation-error handler", unwind=6, timeout_s=900, mem_gb=4, note=AR_STUBS, bounds="1 chunk")
+HARNESSES[-1]["forbid_fail"] = [r"handle_alloc_error"]
+A("claim", "nopanic_dyn_try_alloc_on_claimed", ["C14", "C07"], "try_ twins of the same methods through `dyn BumpAllocatorCore` on a claimed handle: Err, no panic", tier="quick", mem_gb=4, timeout_s=900, bounds="1 chunk")
+
 # C03 scopes
 SCB = "new, filler L(<=6,<=4) with a content byte, scope with a workload of two allocations (symbolic L(<=16,<=16), L(<=8,<=8); with budget the first is the concrete L(24,8) => chunk 2), leave, replay the same workload; chunks <= 2; unwind 6"
 for name, inst, tags, tier in [
@@ -249,8 +253,12 @@ for name, inst, tags, tier in [
     ("scope_try_with_mut_bigerr_up1", "try_alloc_try_with_mut, error type larger than the value (Ok gives the slack back)", ["fits"], "quick"),
     ("scope_try_with_mut_bigerr_down1", "same, down", ["fits"], "quick"),
     ("scope_try_with_mut_bigerr_spill_up4", "same, MIN_ALIGN 4, slot spills into chunk 2", ["b1"], "thorough"),
+    ("scope_try_with_payload_offset_up2", "try_alloc_try_with, MIN_ALIGN 2, Result<[u8;2],u8>: payload size a multiple of MIN_ALIGN, payload offset inside the Result slot not", ["fits"], "quick"),
+    ("scope_try_with_mut_payload_offset_down2", "try_alloc_try_with_mut, same, down", ["fits"], "quick"),
+    ("scope_try_with_mut_payload_offset_up8", "try_alloc_try_with_mut, MIN_ALIGN 8, Result<[u32;2],u32> (payload offset 4)", ["fits"], "thorough"),
+    ("scope_try_with_payload_offset_down8", "try_alloc_try_with, MIN_ALIGN 8, down, Result<[u32;2],u32>", ["fits"], "thorough"),
 ]:
-    A("scope", name, ["C03"] + (["C18"] if "aligned" in name else []) + (["C15"] if "try_with_mut" in name else []), inst, tags=tags, tier=tier, mem_gb=8, bounds=SCB)
+    A("scope", name, ["C03"] + (["C18"] if "aligned" in name else []) + (["C15"] if "try_with_mut" in name else []) + (["C10"] if "try_with" in name else []), inst, tags=tags, tier=tier, mem_gb=8, bounds=SCB)
 
 # C05 chunk release (logging stub checks every deallocate)
 C5B = "new -> <= 2 symbolic allocations that may create chunks 2 and 3 -> end; symbolic failure mask over the base-allocator calls; chunks <= 3 (down: 2); unwind 7"
@@ -543,6 +551,12 @@ for name, props, inst, tags, tier in [
     ("slice_shrink_typed_vs_dyn_nodealloc_down4", ["C17", "C13"], "same, down, MIN_ALIGN 4", ["some"], "quick"),
 ]:
     A("slices", name, props, inst, tags=tags, tier=tier, mem_gb=6, bounds="new, filler L(<=4,<=4), a 7-byte slice, shrink_slice to ANY new length <= 7, one allocation after; unwind 6")
+
+for name, inst, tier in [
+    ("typed_dealloc_wrappers_up1", "BumpAllocatorTyped::dealloc(BumpBox<[u8;4]>) of the newest block through &Bump / WithoutShrink (reclaims, address reused) and through WithoutDealloc by value, by reference and nested with WithoutShrink either way (allocated() and position unchanged), up", "quick"),
+    ("typed_dealloc_wrappers_down4", "same, down, MIN_ALIGN 4", "thorough"),
+]:
+    A("slices", name, ["C13", "C17"], inst, tier=tier, mem_gb=6, bounds="new, filler L(<=4,<=4), one [u8;4] block, ONE typed deallocation through a symbolic choice of 7 entry points, one allocation after; unwind 6")
 
 # C19 pool (sequentialised): one concrete schedule of two logical threads per harness
 for name, inst, tier in [
